@@ -15,6 +15,7 @@ ASSUMPTIONS = [
     'in existence at a call is below the callee\'s entry watermark, everything a callee allocates lies between its entry and exit watermark',
     'A-heap: tensor trains stored in trajectory lists are described by uninterpreted functions of their identity (vt/e1/heap.py); the '
     'bound axioms H_top/H_bot are consistent by construction (finite id sets) but not proved inside z3',
+    'L-prod-pos: a product of positive integers is positive (assumed for the uninterpreted slice products; needs induction)',
     'A-vacuity: where z3 cannot build a model of a quantified path condition the vacuity guard degrades to "no contradiction derivable '
     'within the obligation budget" (counted in coverage.e1_vacuity_inconclusive)',
     'A-engine: the VC generator vt/e1 itself (mitigated by canary obligations that must be refuted on every run and '
